@@ -1,5 +1,5 @@
 (** C15 — proofs: every operator, algebraic operation and utility of Model/Operators.v denotes its
-    dense definition (Base/QMat.v); refutations of the three defective sites. *)
+    dense definition (Base/QMat.v), for the code after the fix commits; legacy_*_refuted name the repaired defects. *)
 From SKN Require Import Base.Util Base.QMat Model.Operators.
 From Coq Require Import QArith Qabs Lqa Psatz Setoid Morphisms Permutation Sorted.
 Local Open Scope Q_scope.
@@ -890,133 +890,14 @@ Proof.
     rewrite EA. field. apply qnat_nonzero; exact Hc.
   - apply Qlt_b_false in Er. pose proof (Qle_antisym_0 reg Hreg Er) as E0. rewrite EA, E0. field. apply qnat_nonzero; exact Hc.
 Qed.
-Lemma nz_matvec_length a reg x : length (nz_matvec (mk_normalizer a reg) x) = s_nrow a.
-Proof. unfold nz_matvec, mk_normalizer; simpl. rewrite smv_length, sdiag_pinv_nrow. vlen. Qed.
-
-Theorem normalizer_dot_denotes e x : ne_wf e -> ne_transposed e = false -> length x = snd (ne_shape e) ->
-  exists y, lo_dot (nz_shape (nz_eval e)) (nz_matvec (nz_eval e)) x = Ok y /\ y =v mat_vec (ne_dense e) x.
-Proof.
-  destruct e as [a reg | e]; simpl; [|discriminate]. intros (W & Hc & Hreg) _ Hx.
-  exists (nz_matvec (mk_normalizer a reg) x). split.
-  - apply lo_dot_ok; unfold nz_shape; simpl; [exact Hx | apply nz_matvec_length].
-  - apply normalizer_matvec_denotes; assumption.
-Qed.
-
-(** D8: Normalizer._transpose returns self *)
-Theorem normalizer_transpose_refuted :
-  exists a x, swf a /\ (0 < s_ncol a)%nat /\ length x = s_nrow a /\
-    ~ (nz_matvec (nz_transpose (mk_normalizer a 0)) x =v mat_vec (transpose_n (s_ncol a) (normalizer_dense a 0)) x).
-Proof.
-  exists {| s_ncol := 3; s_rows := [[(1%nat, 1); (2%nat, 1)]; [(0%nat, 1)]; [(0%nat, 1)]] |}, [1; 2; 3].
-  split; [|split; [|split]].
-  - repeat constructor.
-  - simpl; lia.
-  - reflexivity.
-  - intros H. apply (veq_nthq _ _ 0) in H. vm_compute in H. discriminate.
-Qed.
-
-(* ------------------------------------------------------------------------------------------- *)
-(** * Laplacian *)
-Lemma laplacian_sparse_wf a : swf a -> s_nrow a = s_ncol a ->
-  let w := smv a (vones (s_nrow a)) in
-  swf (sadd (sdiag w) (sneg a)) /\ s_nrow (sadd (sdiag w) (sneg a)) = s_nrow a /\ s_ncol (sadd (sdiag w) (sneg a)) = s_nrow a /\
-  dense (sadd (sdiag w) (sneg a)) =m msub (diag (row_sums (dense a))) (dense a).
-Proof.
-  intros W Hsq w. assert (Hw : length w = s_nrow a) by (unfold w; vlen).
-  assert (Ew : w =v row_sums (dense a)).
-  { unfold w. rewrite smv_dense by (auto; vlen). rewrite Hsq. apply (mat_vec_vones _ _ _ (dense_wf a)). }
-  split; [|split; [|split]].
-  - apply swf_sadd; [apply swf_sdiag | apply swf_smap; exact W | rewrite sdiag_ncol; unfold sneg; rewrite smap_ncol; lia].
-  - rewrite sadd_nrow; rewrite sdiag_nrow; [exact Hw | unfold sneg; rewrite smap_nrow; exact Hw].
-  - rewrite sadd_ncol, sdiag_ncol. exact Hw.
-  - rewrite dense_sadd by (rewrite sdiag_ncol; unfold sneg; rewrite smap_ncol; lia).
-    rewrite dense_sdiag, dense_sneg, msub_madd_mneg. apply madd_proper; [|reflexivity].
-    apply (meq_mget (s_nrow a) (s_nrow a)).
-    + rewrite <- Hw. apply diag_wf.
-    + pose proof (diag_wf (row_sums (dense a))) as WD. rewrite row_sums_length, dense_length in WD. exact WD.
-    + intros i j Hi Hj. rewrite !mget_diag by (rewrite ?row_sums_length, ?dense_length; lia).
-      destruct (Nat.eqb i j); [apply veq_nthq; exact Ew | reflexivity].
-Qed.
-
-Lemma laplacian_L_wf a reg : s_nrow a = s_ncol a ->
-  wf_mat (s_nrow a) (s_nrow a) (msub (diag (row_sums (regularized_dense a reg))) (regularized_dense a reg)).
-Proof.
-  intros Hsq. pose proof (regularized_wf a reg) as WR. rewrite <- Hsq in WR.
-  apply msub_wf; [|exact WR]. pose proof (diag_wf (row_sums (regularized_dense a reg))) as WD.
-  rewrite row_sums_length, (wf_mat_length _ _ _ WR) in WD. exact WD.
-Qed.
-
-Lemma lp_core a reg x : swf a -> s_nrow a = s_ncol a -> (0 < s_nrow a)%nat -> 0 <= reg -> length x = s_nrow a ->
-  let prod := smv (sadd (sdiag (smv a (vones (s_nrow a)))) (sneg a)) x in
-  (if Qlt_b 0 reg then vadd prod (vscale reg (map (fun q => q - vmean x) x)) else prod)
-  =v mat_vec (msub (diag (row_sums (regularized_dense a reg))) (regularized_dense a reg)) x.
-Proof.
-  intros W Hsq Hn Hreg Hx prod.
-  destruct (laplacian_sparse_wf a W Hsq) as (WL & HLr & HLc & EL).
-  pose proof (regularized_wf a reg) as WR. rewrite <- Hsq in WR.
-  set (R := regularized_dense a reg) in *. set (rs := row_sums R).
-  assert (Hrs : length rs = s_nrow a) by (unfold rs; rewrite row_sums_length; apply (wf_mat_length _ _ _ WR)).
-  assert (WDg : wf_mat (s_nrow a) (s_nrow a) (diag rs)) by (rewrite <- Hrs; apply diag_wf).
-  assert (E2 : mat_vec (msub (diag rs) R) x =v
-               vsub (vmul rs x) (vadd (mat_vec (dense a) x) (vconst (s_nrow a) (reg / qnat (s_ncol a) * sumq x)))).
-  { rewrite (mat_vec_msub (s_nrow a) (s_nrow a)) by assumption. rewrite mat_vec_diag by lia.
-    unfold R. rewrite mat_vec_regularized by lia. reflexivity. }
-  assert (WDa : wf_mat (s_nrow a) (s_nrow a) (diag (row_sums (dense a)))).
-  { pose proof (diag_wf (row_sums (dense a))) as WD. rewrite row_sums_length, dense_length in WD. exact WD. }
-  assert (WA : wf_mat (s_nrow a) (s_nrow a) (dense a)) by (rewrite Hsq at 2; apply dense_wf).
-  assert (E1 : prod =v vsub (vmul (row_sums (dense a)) x) (mat_vec (dense a) x)).
-  { unfold prod. rewrite smv_dense by (auto; lia). rewrite EL.
-    rewrite (mat_vec_msub (s_nrow a) (s_nrow a)) by assumption. rewrite mat_vec_diag by vlen. reflexivity. }
-  assert (HW : rs =v map (fun d => d + reg) (row_sums (dense a))) by (apply row_sums_regularized; lia).
-  rewrite E2. apply veq_nth.
-  - destruct (Qlt_b 0 reg); rewrite ?vadd_length, (veq_length _ _ E1); vlen.
-  - intros i Hi. assert (Hi' : (i < s_nrow a)%nat).
-    { destruct (Qlt_b 0 reg); rewrite ?vadd_length, (veq_length _ _ E1) in Hi; vlen. }
-    clear Hi. rewrite nthq_vsub by vlen. rewrite nthq_vmul by vlen. rewrite nthq_vadd by vlen. rewrite nthq_vconst by exact Hi'.
-    rewrite (veq_nthq _ _ i HW). rewrite nthq_map by vlen.
-    assert (EP : nthq prod i == nthq (row_sums (dense a)) i * nthq x i - nthq (mat_vec (dense a) x) i).
-    { rewrite (veq_nthq _ _ i E1). rewrite nthq_vsub by vlen. rewrite nthq_vmul by vlen. reflexivity. }
-    assert (HLp : length prod = s_nrow a) by (rewrite (veq_length _ _ E1); vlen).
-    destruct (Qlt_b 0 reg) eqn:Er.
-    + rewrite nthq_vadd by vlen. rewrite nthq_vscale by vlen. rewrite nthq_map by vlen.
-      rewrite EP, (vmean_def x (s_ncol a)) by lia. field. apply qnat_nonzero; lia.
-    + apply Qlt_b_false in Er. pose proof (Qle_antisym_0 reg Hreg Er) as E0. rewrite EP, E0. field. apply qnat_nonzero; lia.
-Qed.
-
-Lemma lp_norm_weights sqrtf a reg : Proper (Qeq ==> Qeq) sqrtf -> swf a -> s_nrow a = s_ncol a -> (0 < s_nrow a)%nat ->
-  map pinv (map (fun d => sqrtf (d + reg)) (smv a (vones (s_nrow a))))
-  =v map (fun d => pinv (sqrtf d)) (row_sums (regularized_dense a reg)).
-Proof.
-  intros Hs W Hsq Hn. rewrite map_map.
-  assert (HW : row_sums (regularized_dense a reg) =v map (fun d => d + reg) (smv a (vones (s_nrow a)))).
-  { rewrite Hsq. symmetry. apply mk_normalizer_weights; [exact W | lia]. }
-  apply veq_nth; [rewrite !map_length, (veq_length _ _ HW), map_length; reflexivity|].
-  intros i Hi. rewrite map_length in Hi.
-  rewrite nthq_map by exact Hi. rewrite nthq_map by (rewrite (veq_length _ _ HW), map_length; exact Hi).
-  rewrite (veq_nthq _ _ i HW). rewrite nthq_map by exact Hi. reflexivity.
-Qed.
-
-Theorem laplacian_matvec_denotes sqrtf a reg norm x :
-  Proper (Qeq ==> Qeq) sqrtf -> swf a -> s_nrow a = s_ncol a -> (0 < s_nrow a)%nat -> 0 <= reg -> length x = s_nrow a ->
-  lp_matvec (mk_laplacian sqrtf a reg norm) x =v mat_vec (laplacian_dense sqrtf a reg norm) x.
-Proof.
-  intros Hs W Hsq Hn Hreg Hx. unfold lp_matvec, mk_laplacian, laplacian_dense. destruct norm; simpl.
-  - set (s' := map (fun d => sqrtf (d + reg)) (smv a (vones (s_nrow a)))).
-    assert (Hs' : length s' = s_nrow a) by (unfold s'; vlen).
-    pose proof (lp_norm_weights sqrtf a reg Hs W Hsq Hn) as ES. fold s' in ES.
-    set (s := map (fun d => pinv (sqrtf d)) (row_sums (regularized_dense a reg))) in *.
-    set (x1 := smv (sdiag_pinv s') x).
-    assert (Ex1 : x1 =v vmul s x) by (unfold x1; rewrite smv_sdiag_pinv by lia; rewrite ES; reflexivity).
-    assert (Hx1 : length x1 = s_nrow a) by (unfold x1; rewrite smv_length, sdiag_pinv_nrow; exact Hs').
-    pose proof (lp_core a reg x1 W Hsq Hn Hreg Hx1) as HC. cbv zeta in HC.
-    set (core := if Qlt_b 0 reg then _ else _) in *.
-    rewrite mat_vec_row_scale, mat_vec_col_scale.
-    assert (Hcore : length core = s_nrow a).
-    { rewrite (veq_length _ _ HC), mat_vec_length. apply (wf_mat_length _ _ _ (laplacian_L_wf a reg Hsq)). }
-    rewrite smv_sdiag_pinv by lia. rewrite ES, HC, Ex1. reflexivity.
-  - apply lp_core; assumption.
-Qed.
-(** 2-D branch of Laplacian._matvec *)
+Global Instance map_pinv_instance : Proper (veq ==> veq) (map pinv).
+Proof. intros u v H. apply map_pinv_proper; exact H. Qed.
+Lemma sneg_nrow s : s_nrow (sneg s) = s_nrow s. Proof. apply smap_nrow. Qed.
+Lemma sscale_nrow c s : s_nrow (sscale c s) = s_nrow s. Proof. apply smap_nrow. Qed.
+Lemma sneg_ncol s : s_ncol (sneg s) = s_ncol s. Proof. reflexivity. Qed.
+Lemma sscale_ncol c s : s_ncol (sscale c s) = s_ncol s. Proof. reflexivity. Qed.
+Global Hint Rewrite smap_nrow smap_ncol sneg_nrow sneg_ncol sscale_nrow sscale_ncol stranspose_nrow stranspose_ncol
+  smul_nrow smul_ncol sdiag_nrow sdiag_ncol sdiag_pinv_nrow sdiag_pinv_ncol sadd_ncol : vlen.
 Lemma nth_msub A B i : (i < length A)%nat -> (i < length B)%nat -> nth i (msub A B) [] = vsub (nth i A []) (nth i B []).
 Proof. intros; unfold msub; apply nth_map2_mat; assumption. Qed.
 Lemma mat_mul_msub_l r q p A A' B : wf_mat r q A -> wf_mat r q A' -> wf_mat q p B ->
@@ -1050,80 +931,217 @@ Proof.
   apply dot_vmul_l.
 Qed.
 
-Lemma lp_core_mat k a reg X : swf a -> s_nrow a = s_ncol a -> (0 < s_nrow a)%nat -> 0 <= reg -> wf_mat (s_nrow a) k X ->
-  let prod := smm k (sadd (sdiag (smv a (vones (s_nrow a)))) (sneg a)) X in
-  (if Qlt_b 0 reg then madd prod (mscale reg (msub X (outer (vones (s_nrow a)) (col_means k X)))) else prod)
-  =m mat_mul k (msub (diag (row_sums (regularized_dense a reg))) (regularized_dense a reg)) X.
+Lemma nz_matvec_length a reg x : length (nz_matvec (mk_normalizer a reg) x) = s_nrow a.
+Proof. unfold nz_matvec, mk_normalizer; simpl. rewrite smv_length, sdiag_pinv_nrow. vlen. Qed.
+
+(** _rmatvec: the transposed dense matrix *)
+Lemma transpose_regularized a reg :
+  transpose_n (s_ncol a) (regularized_dense a reg)
+  =m madd (transpose_n (s_ncol a) (dense a)) (mconst (s_ncol a) (s_nrow a) (reg / qnat (s_ncol a))).
 Proof.
-  intros W Hsq Hn Hreg WX prod.
-  destruct (laplacian_sparse_wf a W Hsq) as (WL & HLr & HLc & EL).
-  pose proof (regularized_wf a reg) as WR. rewrite <- Hsq in WR. set (n := s_nrow a) in *.
-  set (R := regularized_dense a reg) in *. set (rs := row_sums R).
-  assert (Hrs : length rs = n) by (unfold rs; rewrite row_sums_length; apply (wf_mat_length _ _ _ WR)).
-  assert (WDg : wf_mat n n (diag rs)) by (rewrite <- Hrs; apply diag_wf).
-  assert (WA : wf_mat n n (dense a)) by (pose proof (dense_wf a) as WA0; rewrite <- Hsq in WA0; exact WA0).
-  assert (HrsA : length (row_sums (dense a)) = n) by (rewrite row_sums_length; apply dense_length).
-  assert (WDa : wf_mat n n (diag (row_sums (dense a)))) by (rewrite <- HrsA at 1 2; apply diag_wf).
-  assert (WAX : wf_mat n k (mat_mul k (dense a) X)) by (eapply mat_mul_wf; eauto).
-  assert (WX' : wf_mat (s_ncol a) k X) by (rewrite <- Hsq; exact WX).
-  assert (WO : wf_mat n k (outer (vones n) (vscale (reg / qnat (s_ncol a)) (col_sums k X)))) by (apply outer_wf'; vlen).
-  assert (WOm : wf_mat n k (outer (vones n) (col_means k X))) by (apply outer_wf'; vlen).
-  assert (E2 : mat_mul k (msub (diag rs) R) X =m
-               msub (row_scale rs X) (madd (mat_mul k (dense a) X) (outer (vones n) (vscale (reg / qnat (s_ncol a)) (col_sums k X))))).
-  { rewrite (mat_mul_msub_l n n k) by assumption. rewrite <- (row_scale_diag n k) by assumption.
-    unfold R. rewrite mat_mul_regularized by assumption. reflexivity. }
-  assert (E1 : prod =m msub (row_scale (row_sums (dense a)) X) (mat_mul k (dense a) X)).
-  { unfold prod. rewrite smm_dense by (auto; rewrite HLc; exact WX). rewrite EL.
-    rewrite (mat_mul_msub_l n n k) by assumption. rewrite <- (row_scale_diag n k) by assumption. reflexivity. }
-  assert (Wprod : wf_mat n k prod).
-  { eapply wf_mat_meq; [symmetry; exact E1|]. apply msub_wf; [apply row_scale_wf; assumption | exact WAX]. }
-  assert (HW : rs =v map (fun d => d + reg) (row_sums (dense a))) by (apply row_sums_regularized; lia).
-  rewrite E2. apply (meq_mget n k).
-  - destruct (Qlt_b 0 reg); [|exact Wprod]. apply madd_wf; [exact Wprod|]. apply mscale_wf. apply msub_wf; assumption.
-  - apply msub_wf; [apply row_scale_wf; assumption | apply madd_wf; assumption].
-  - intros i j Hi Hj.
-    rewrite (mget_msub n k) by (auto using row_scale_wf, madd_wf).
-    rewrite (mget_row_scale n k) by assumption. rewrite (mget_madd n k) by assumption.
-    rewrite mget_outer by vlen. rewrite nthq_vones by exact Hi. rewrite nthq_vscale by vlen.
-    unfold col_sums. rewrite nthq_seq_map by exact Hj.
-    rewrite (veq_nthq _ _ i HW). rewrite nthq_map by lia.
-    assert (EP : mget prod i j == nthq (row_sums (dense a)) i * mget X i j - mget (mat_mul k (dense a) X) i j).
-    { rewrite E1. rewrite (mget_msub n k) by (auto using row_scale_wf). rewrite (mget_row_scale n k) by assumption. reflexivity. }
+  unfold regularized_dense. rewrite (transpose_madd (s_nrow a) (s_ncol a)) by (auto using dense_wf, mconst_wf).
+  rewrite transpose_mconst. reflexivity.
+Qed.
+Lemma mget_map_map (f : Q -> Q) r c M i j : wf_mat r c M -> (i < r)%nat -> (j < c)%nat ->
+  mget (map (map f) M) i j = f (mget M i j).
+Proof.
+  intros WM Hi Hj. unfold mget. rewrite (nth_map_gen (map f) M [] []) by (rewrite (wf_mat_length _ _ _ WM); exact Hi).
+  apply nthq_map. rewrite (wf_mat_row _ _ _ _ WM Hi). exact Hj.
+Qed.
+Lemma map_map_wf (f : Q -> Q) r c M : wf_mat r c M -> wf_mat r c (map (map f) M).
+Proof. apply wf_map. intros row H. rewrite map_length. exact H. Qed.
+
+Theorem normalizer_rmatvec_denotes a reg x : swf a -> (0 < s_ncol a)%nat -> 0 <= reg -> length x = s_nrow a ->
+  nz_rmatvec (mk_normalizer a reg) x =v mat_vec (transpose_n (s_ncol a) (normalizer_dense a reg)) x.
+Proof.
+  intros W Hc Hreg Hx. unfold nz_rmatvec, mk_normalizer, normalizer_dense; simpl.
+  set (R := regularized_dense a reg). set (d := map pinv (row_sums R)).
+  pose proof (regularized_wf a reg) as WR. fold R in WR.
+  assert (Hd : length d = s_nrow a) by (unfold d; rewrite map_length, row_sums_length; apply (wf_mat_length _ _ _ WR)).
+  set (w' := map (fun q => q + reg) (smv a (vones (s_ncol a)))).
+  assert (Hw' : length w' = s_nrow a) by (unfold w'; vlen).
+  set (prod := smv (sdiag_pinv w') x).
+  assert (EP : prod =v vmul d x).
+  { unfold prod. rewrite smv_sdiag_pinv by lia. apply vmul_proper; [|reflexivity].
+    apply map_pinv_proper. apply mk_normalizer_weights; assumption. }
+  assert (HP : length prod = s_nrow a) by (unfold prod; rewrite smv_length, sdiag_pinv_nrow; exact Hw').
+  assert (WAt : wf_mat (s_ncol a) (s_nrow a) (transpose_n (s_ncol a) (dense a))) by (apply transpose_n_wf, dense_length).
+  assert (ER : mat_vec (transpose_n (s_ncol a) (row_scale d R)) x
+               =v vadd (mat_vec (transpose_n (s_ncol a) (dense a)) (vmul d x))
+                       (vconst (s_ncol a) (reg / qnat (s_ncol a) * sumq (vmul d x)))).
+  { rewrite (transpose_row_scale (s_nrow a) (s_ncol a)) by assumption. rewrite mat_vec_col_scale.
+    unfold R. rewrite transpose_regularized.
+    rewrite (mat_vec_madd (s_ncol a) (s_nrow a)) by (auto using mconst_wf).
+    rewrite mat_vec_mconst by vlen. reflexivity. }
+  rewrite ER.
+  assert (EO : smv (stranspose a) prod =v mat_vec (transpose_n (s_ncol a) (dense a)) (vmul d x)).
+  { rewrite smv_dense by (auto using swf_stranspose; rewrite stranspose_ncol; exact HP).
+    rewrite dense_stranspose, EP. reflexivity. }
+  assert (HO : length (smv (stranspose a) prod) = s_ncol a) by (rewrite smv_length; apply stranspose_nrow).
+  assert (HM : length (mat_vec (transpose_n (s_ncol a) (dense a)) (vmul d x)) = s_ncol a)
+    by (rewrite mat_vec_length; apply (wf_mat_length _ _ _ WAt)).
+  apply veq_nth.
+  - destruct (Qlt_b 0 reg); rewrite ?vadd_length, ?map_length, ?vscale_length, ?vones_length, ?vconst_length, ?HO, ?HM; lia.
+  - intros i Hi. assert (Hi' : (i < s_ncol a)%nat).
+    { destruct (Qlt_b 0 reg); rewrite ?vadd_length, ?map_length, ?vscale_length, ?vones_length, ?HO in Hi; lia. }
+    clear Hi. rewrite nthq_vadd by (rewrite ?HM, ?vconst_length; lia).
+    rewrite nthq_vconst by exact Hi'.
     destruct (Qlt_b 0 reg) eqn:Er.
-    + rewrite (mget_madd n k) by (auto using mscale_wf, msub_wf). rewrite (mget_mscale n k) by (auto using msub_wf).
-      rewrite (mget_msub n k) by assumption. rewrite mget_outer by vlen. rewrite nthq_vones by exact Hi.
-      unfold col_means. rewrite nthq_seq_map by exact Hj.
-      rewrite (vmean_def (col j X) (s_ncol a)) by (rewrite col_length, (wf_mat_length _ _ _ WX); exact Hsq).
-      rewrite EP. field. apply qnat_nonzero; lia.
-    + apply Qlt_b_false in Er. pose proof (Qle_antisym_0 reg Hreg Er) as E0. rewrite EP, E0. field. apply qnat_nonzero; lia.
+    + rewrite nthq_vadd by (rewrite ?map_length, ?vscale_length, ?vones_length, ?HO; lia).
+      rewrite nthq_map by (rewrite vscale_length, vones_length; exact Hi').
+      rewrite nthq_vscale by (rewrite vones_length; exact Hi'). rewrite nthq_vones by exact Hi'.
+      rewrite (veq_nthq _ _ i EO), (sumq_proper _ _ EP). field. apply qnat_nonzero; exact Hc.
+    + apply Qlt_b_false in Er. pose proof (Qle_antisym_0 reg Hreg Er) as E0. rewrite (veq_nthq _ _ i EO), E0. field. apply qnat_nonzero; exact Hc.
 Qed.
-
-Theorem laplacian_matmat_denotes sqrtf k a reg norm X :
-  Proper (Qeq ==> Qeq) sqrtf -> swf a -> s_nrow a = s_ncol a -> (0 < s_nrow a)%nat -> 0 <= reg -> wf_mat (s_nrow a) k X ->
-  lp_matmat k (mk_laplacian sqrtf a reg norm) X =m mat_mul k (laplacian_dense sqrtf a reg norm) X.
+Lemma nz_rmatvec_length a reg x : length (nz_rmatvec (mk_normalizer a reg) x) = s_ncol a.
 Proof.
-  intros Hs W Hsq Hn Hreg WX. unfold lp_matmat, mk_laplacian, laplacian_dense. destruct norm; simpl.
-  - set (s' := map (fun d => sqrtf (d + reg)) (smv a (vones (s_nrow a)))).
-    assert (Hs' : length s' = s_nrow a) by (unfold s'; vlen).
-    pose proof (lp_norm_weights sqrtf a reg Hs W Hsq Hn) as ES. fold s' in ES.
-    set (s := map (fun d => pinv (sqrtf d)) (row_sums (regularized_dense a reg))) in *.
-    assert (Hsl : length s = s_nrow a) by (rewrite <- (veq_length _ _ ES), map_length; exact Hs').
-    set (X1 := smm k (sdiag_pinv s') X).
-    assert (Ex1 : X1 =m row_scale s X).
-    { unfold X1. rewrite smm_sdiag_pinv by (rewrite Hs'; exact WX). rewrite ES. reflexivity. }
-    assert (WX1 : wf_mat (s_nrow a) k X1) by (eapply wf_mat_meq; [symmetry; exact Ex1 | apply row_scale_wf; assumption]).
-    pose proof (lp_core_mat k a reg X1 W Hsq Hn Hreg WX1) as HC. cbv zeta in HC.
-    set (core := if Qlt_b 0 reg then _ else _) in *.
-    pose proof (laplacian_L_wf a reg Hsq) as WLr.
-    assert (Wcore : wf_mat (s_nrow a) k core) by (eapply wf_mat_meq; [symmetry; exact HC | eapply mat_mul_wf; eauto]).
-    rewrite smm_sdiag_pinv by (rewrite Hs'; exact Wcore).
-    rewrite mat_mul_row_scale_l by apply (wf_mat_rows _ _ _ WX).
-    rewrite (mat_mul_col_scale (s_nrow a) (s_nrow a) k) by assumption.
-    rewrite ES, HC, Ex1. reflexivity.
-  - apply lp_core_mat; assumption.
+  unfold nz_rmatvec, mk_normalizer; simpl. destruct (Qlt_b 0 reg);
+    rewrite ?vadd_length, ?map_length, ?vscale_length, ?vones_length, smv_length, stranspose_nrow; lia.
 Qed.
 
-(** transposition: the Laplacian of a symmetric adjacency is symmetric, so returning self is right there *)
+Theorem normalizer_rmatmat_denotes k a reg X : swf a -> (0 < s_ncol a)%nat -> 0 <= reg -> wf_mat (s_nrow a) k X ->
+  nz_rmatmat k (mk_normalizer a reg) X =m mat_mul k (transpose_n (s_ncol a) (normalizer_dense a reg)) X.
+Proof.
+  intros W Hc Hreg WX. unfold nz_rmatmat, mk_normalizer, normalizer_dense; simpl.
+  set (R := regularized_dense a reg). set (d := map pinv (row_sums R)).
+  pose proof (regularized_wf a reg) as WR. fold R in WR.
+  assert (Hd : length d = s_nrow a) by (unfold d; rewrite map_length, row_sums_length; apply (wf_mat_length _ _ _ WR)).
+  set (w' := map (fun q => q + reg) (smv a (vones (s_ncol a)))).
+  assert (Hw' : length w' = s_nrow a) by (unfold w'; vlen).
+  set (prod := smm k (sdiag_pinv w') X).
+  assert (EP : prod =m row_scale d X).
+  { unfold prod. rewrite smm_sdiag_pinv by (rewrite Hw'; exact WX). apply row_scale_proper; [|reflexivity].
+    apply map_pinv_proper. apply mk_normalizer_weights; assumption. }
+  assert (WP' : wf_mat (s_nrow a) k (row_scale d X)) by (apply row_scale_wf; assumption).
+  assert (WP : wf_mat (s_nrow a) k prod) by (eapply wf_mat_meq; [symmetry; exact EP | exact WP']).
+  assert (WAt : wf_mat (s_ncol a) (s_nrow a) (transpose_n (s_ncol a) (dense a))) by (apply transpose_n_wf, dense_length).
+  assert (WRt : wf_mat (s_ncol a) (s_nrow a) (transpose_n (s_ncol a) R)) by (apply transpose_n_wf, (wf_mat_length _ _ _ WR)).
+  assert (ER : mat_mul k (transpose_n (s_ncol a) (row_scale d R)) X
+               =m madd (mat_mul k (transpose_n (s_ncol a) (dense a)) (row_scale d X))
+                       (outer (vones (s_ncol a)) (vscale (reg / qnat (s_ncol a)) (col_sums k (row_scale d X))))).
+  { rewrite (transpose_row_scale (s_nrow a) (s_ncol a)) by assumption.
+    rewrite (mat_mul_col_scale (s_ncol a) (s_nrow a) k) by assumption.
+    unfold R. rewrite transpose_regularized.
+    rewrite (mat_mul_madd_l (s_ncol a) (s_nrow a) k) by (auto using mconst_wf).
+    rewrite mat_mul_mconst_l by exact WP'. reflexivity. }
+  rewrite ER.
+  assert (EO : smm k (stranspose a) prod =m mat_mul k (transpose_n (s_ncol a) (dense a)) (row_scale d X)).
+  { rewrite smm_dense by (auto using swf_stranspose; rewrite stranspose_ncol; exact WP).
+    rewrite dense_stranspose, EP. reflexivity. }
+  assert (WO : wf_mat (s_ncol a) k (smm k (stranspose a) prod)).
+  { pose proof (smm_wf k (stranspose a) prod (swf_stranspose a)) as H. rewrite stranspose_ncol, stranspose_nrow in H. apply H; exact WP. }
+  assert (WM : wf_mat (s_ncol a) k (mat_mul k (transpose_n (s_ncol a) (dense a)) (row_scale d X))) by (eapply mat_mul_wf; eauto).
+  assert (WO1 : wf_mat (s_ncol a) k (outer (vones (s_ncol a)) (col_sums k prod))) by (apply outer_wf'; vlen).
+  assert (WO2 : wf_mat (s_ncol a) k (outer (vones (s_ncol a)) (vscale (reg / qnat (s_ncol a)) (col_sums k (row_scale d X))))) by (apply outer_wf'; vlen).
+  apply (meq_mget (s_ncol a) k).
+  - destruct (Qlt_b 0 reg); [|exact WO]. apply madd_wf; [exact WO|]. apply map_map_wf, mscale_wf; exact WO1.
+  - apply madd_wf; assumption.
+  - intros i j Hi Hj. rewrite (mget_madd (s_ncol a) k) by assumption.
+    rewrite mget_outer by vlen. rewrite nthq_vones by exact Hi. rewrite nthq_vscale by vlen.
+    assert (EOij : mget (smm k (stranspose a) prod) i j == mget (mat_mul k (transpose_n (s_ncol a) (dense a)) (row_scale d X)) i j)
+      by (rewrite EO; reflexivity).
+    assert (ECS : nthq (col_sums k prod) j == nthq (col_sums k (row_scale d X)) j) by (rewrite EP; reflexivity).
+    destruct (Qlt_b 0 reg) eqn:Er.
+    + rewrite (mget_madd (s_ncol a) k) by (auto; apply map_map_wf, mscale_wf; exact WO1).
+      rewrite (mget_map_map _ (s_ncol a) k) by (auto; apply mscale_wf; exact WO1).
+      rewrite (mget_mscale (s_ncol a) k) by assumption. rewrite mget_outer by vlen. rewrite nthq_vones by exact Hi.
+      rewrite EOij, ECS. field. apply qnat_nonzero; exact Hc.
+    + apply Qlt_b_false in Er. pose proof (Qle_antisym_0 reg Hreg Er) as E0. rewrite EOij, E0. field. apply qnat_nonzero; exact Hc.
+Qed.
+
+(** expressions: NT^k (NBase a reg); operator.T of SciPy alternates _matvec and _rmatvec and swaps the shape *)
+Lemma ne_base_spec e : exists a reg, ne_base e = mk_normalizer a reg /\
+  (ne_wf e -> swf a /\ (0 < s_ncol a)%nat /\ 0 <= reg) /\
+  ne_shape e = (if ne_flag e then (s_ncol a, s_nrow a) else (s_nrow a, s_ncol a)) /\
+  (ne_wf e -> ne_dense e =m if ne_flag e then transpose_n (s_ncol a) (normalizer_dense a reg) else normalizer_dense a reg).
+Proof.
+  induction e as [a reg | e IH]; simpl.
+  - exists a, reg. split; [reflexivity|]. split; [auto|]. split; [reflexivity|]. intros _; reflexivity.
+  - destruct IH as (a & reg & E1 & E2 & E3 & E4). exists a, reg. split; [exact E1|]. split; [exact E2|].
+    rewrite E3. destruct (ne_flag e); simpl; split; try reflexivity; intros HW.
+    + rewrite (E4 HW). destruct (E2 HW) as (W & Hc & Hr).
+      apply (transpose_transpose (s_nrow a) (s_ncol a)). unfold normalizer_dense.
+      apply row_scale_wf; [|apply regularized_wf]. rewrite map_length, row_sums_length. apply (wf_mat_length _ _ _ (regularized_wf a reg)).
+    + rewrite (E4 HW). reflexivity.
+Qed.
+Theorem normalizer_dot_denotes e x : ne_wf e -> length x = snd (ne_shape e) ->
+  exists y, lo_dot (ne_shape e) (ne_matvec e) x = Ok y /\ y =v mat_vec (ne_dense e) x.
+Proof.
+  intros HW Hx. destruct (ne_base_spec e) as (a & reg & E1 & E2 & E3 & E4).
+  destruct (E2 HW) as (W & Hc & Hreg). specialize (E4 HW). unfold ne_matvec. rewrite E1, E3 in *.
+  destruct (ne_flag e); simpl in Hx.
+  - exists (nz_rmatvec (mk_normalizer a reg) x). split.
+    + apply lo_dot_ok; simpl; [exact Hx | apply nz_rmatvec_length].
+    + rewrite E4. apply normalizer_rmatvec_denotes; assumption.
+  - exists (nz_matvec (mk_normalizer a reg) x). split.
+    + apply lo_dot_ok; simpl; [exact Hx | apply nz_matvec_length].
+    + rewrite E4. apply normalizer_matvec_denotes; assumption.
+Qed.
+Theorem normalizer_expr_matmat_denotes k e X : ne_wf e -> wf_mat (snd (ne_shape e)) k X ->
+  ne_matmat k e X =m mat_mul k (ne_dense e) X.
+Proof.
+  intros HW WX. destruct (ne_base_spec e) as (a & reg & E1 & E2 & E3 & E4).
+  destruct (E2 HW) as (W & Hc & Hreg). specialize (E4 HW). unfold ne_matmat. rewrite E1, E3 in *.
+  destruct (ne_flag e); simpl in WX; rewrite E4.
+  - apply normalizer_rmatmat_denotes; assumption.
+  - apply normalizer_matmat_denotes; assumption.
+Qed.
+
+(** legacy (before 042fc436): Normalizer._transpose returned self *)
+Theorem legacy_normalizer_transpose_refuted :
+  exists a x, swf a /\ (0 < s_ncol a)%nat /\ length x = s_nrow a /\
+    ~ (nz_matvec (legacy_nz_transpose (mk_normalizer a 0)) x =v mat_vec (transpose_n (s_ncol a) (normalizer_dense a 0)) x).
+Proof.
+  exists {| s_ncol := 3; s_rows := [[(1%nat, 1); (2%nat, 1)]; [(0%nat, 1)]; [(0%nat, 1)]] |}, [1; 2; 3].
+  split; [|split; [|split]].
+  - repeat constructor.
+  - simpl; lia.
+  - reflexivity.
+  - intros H. apply (veq_nthq _ _ 0) in H. vm_compute in H. discriminate.
+Qed.
+(** * Laplacian *)
+Lemma laplacian_sparse_wf a : swf a -> s_nrow a = s_ncol a ->
+  let w := smv a (vones (s_nrow a)) in
+  swf (sadd (sdiag w) (sneg a)) /\ s_nrow (sadd (sdiag w) (sneg a)) = s_nrow a /\ s_ncol (sadd (sdiag w) (sneg a)) = s_nrow a /\
+  dense (sadd (sdiag w) (sneg a)) =m msub (diag (row_sums (dense a))) (dense a).
+Proof.
+  intros W Hsq w. assert (Hw : length w = s_nrow a) by (unfold w; vlen).
+  assert (Ew : w =v row_sums (dense a)).
+  { unfold w. rewrite smv_dense by (auto; vlen). rewrite Hsq. apply (mat_vec_vones _ _ _ (dense_wf a)). }
+  split; [|split; [|split]].
+  - apply swf_sadd; [apply swf_sdiag | apply swf_smap; exact W | rewrite sdiag_ncol; unfold sneg; rewrite smap_ncol; lia].
+  - rewrite sadd_nrow; rewrite sdiag_nrow; [exact Hw | unfold sneg; rewrite smap_nrow; exact Hw].
+  - rewrite sadd_ncol, sdiag_ncol. exact Hw.
+  - rewrite dense_sadd by (rewrite sdiag_ncol; unfold sneg; rewrite smap_ncol; lia).
+    rewrite dense_sdiag, dense_sneg, msub_madd_mneg. apply madd_proper; [|reflexivity].
+    apply (meq_mget (s_nrow a) (s_nrow a)).
+    + rewrite <- Hw. apply diag_wf.
+    + pose proof (diag_wf (row_sums (dense a))) as WD. rewrite row_sums_length, dense_length in WD. exact WD.
+    + intros i j Hi Hj. rewrite !mget_diag by (rewrite ?row_sums_length, ?dense_length; lia).
+      destruct (Nat.eqb i j); [apply veq_nthq; exact Ew | reflexivity].
+Qed.
+
+Lemma lp_norm_weights sqrtf a reg : Proper (Qeq ==> Qeq) sqrtf -> swf a -> s_nrow a = s_ncol a -> (0 < s_nrow a)%nat ->
+  map pinv (map (fun d => sqrtf (d + reg)) (smv a (vones (s_nrow a))))
+  =v map (fun d => pinv (sqrtf d)) (row_sums (regularized_dense a reg)).
+Proof.
+  intros Hs W Hsq Hn. rewrite map_map.
+  assert (HW : row_sums (regularized_dense a reg) =v map (fun d => d + reg) (smv a (vones (s_nrow a)))).
+  { rewrite Hsq. symmetry. apply mk_normalizer_weights; [exact W | lia]. }
+  apply veq_nth; [rewrite !map_length, (veq_length _ _ HW), map_length; reflexivity|].
+  intros i Hi. rewrite map_length in Hi.
+  rewrite nthq_map by exact Hi. rewrite nthq_map by (rewrite (veq_length _ _ HW), map_length; exact Hi).
+  rewrite (veq_nthq _ _ i HW). rewrite nthq_map by exact Hi. reflexivity.
+Qed.
+
+Lemma laplacian_L_wf a reg : s_nrow a = s_ncol a ->
+  wf_mat (s_nrow a) (s_nrow a) (msub (diag (row_sums (regularized_dense a reg))) (regularized_dense a reg)).
+Proof.
+  intros Hsq. pose proof (regularized_wf a reg) as WR. rewrite <- Hsq in WR.
+  apply msub_wf; [|exact WR]. pose proof (diag_wf (row_sums (regularized_dense a reg))) as WD.
+  rewrite row_sums_length, (wf_mat_length _ _ _ WR) in WD. exact WD.
+Qed.
+
 Lemma laplacian_dense_wf sqrtf a reg norm : s_nrow a = s_ncol a ->
   wf_mat (s_nrow a) (s_nrow a) (laplacian_dense sqrtf a reg norm).
 Proof.
@@ -1133,37 +1151,304 @@ Proof.
   { rewrite map_length, row_sums_length. apply (wf_mat_length _ _ _ WR). }
   apply row_scale_wf; [exact Hl|]. apply col_scale_wf; [exact Hl | exact WL].
 Qed.
-Theorem laplacian_symmetric sqrtf a reg norm : s_nrow a = s_ncol a -> msymmetric (s_nrow a) (dense a) ->
-  msymmetric (s_nrow a) (laplacian_dense sqrtf a reg norm).
+
+(** the matrix applied by a Laplacian object whose sparse part denotes LA: LA + reg (I - 11^T/n), normalised by s *)
+Definition lreg (n : nat) (reg : Q) (LA : mat) : mat :=
+  madd LA (mscale reg (msub (identity n) (mconst n n (1 / qnat n)))).
+Definition lfull (n : nat) (reg : Q) (norm : bool) (s : vec) (LA : mat) : mat :=
+  if norm then row_scale s (col_scale (lreg n reg LA) s) else lreg n reg LA.
+Global Instance lreg_proper : Proper (eq ==> Qeq ==> meq ==> meq) lreg.
+Proof. intros n n' <- r r' Hr A A' HA. unfold lreg. rewrite HA, Hr. reflexivity. Qed.
+Global Instance lfull_proper : Proper (eq ==> Qeq ==> eq ==> veq ==> meq ==> meq) lfull.
 Proof.
-  intros Hsq HS.
-  pose proof (regularized_wf a reg) as WR. rewrite <- Hsq in WR.
-  pose proof (laplacian_L_wf a reg Hsq) as WL. set (n := s_nrow a) in *.
-  set (R := regularized_dense a reg) in *. set (rs := row_sums R).
-  assert (Hrs : length rs = n) by (unfold rs; rewrite row_sums_length; apply (wf_mat_length _ _ _ WR)).
-  assert (WDg : wf_mat n n (diag rs)) by (rewrite <- Hrs; apply diag_wf).
-  assert (SL : msymmetric n (msub (diag rs) R)).
-  { intros i j Hi Hj. rewrite !(mget_msub n n) by assumption. rewrite !mget_diag by lia.
-    unfold R. rewrite !mget_regularized by (fold n; lia). rewrite (HS i j Hi Hj).
-    destruct (Nat.eqb i j) eqn:E.
-    - apply Nat.eqb_eq in E. subst j. rewrite Nat.eqb_refl. reflexivity.
-    - rewrite Nat.eqb_sym, E. reflexivity. }
-  unfold laplacian_dense. fold R. fold rs. destruct norm; [|exact SL].
-  set (s := map (fun d => pinv (sqrtf d)) rs).
-  assert (Hsl : length s = n) by (unfold s; rewrite map_length; exact Hrs).
-  intros i j Hi Hj. rewrite !(mget_row_scale n n) by (auto using col_scale_wf).
-  rewrite !(mget_col_scale n n) by assumption. rewrite (SL i j Hi Hj). ring.
+  intros n n' <- r r' Hr b b' <- s s' Hs A A' HA. unfold lfull. destruct b; [|rewrite Hr, HA; reflexivity].
+  rewrite Hs, Hr, HA. reflexivity.
 Qed.
-Theorem laplacian_transpose_symmetric sqrtf a reg norm : s_nrow a = s_ncol a -> msymmetric (s_nrow a) (dense a) ->
-  transpose_n (s_nrow a) (laplacian_dense sqrtf a reg norm) =m laplacian_dense sqrtf a reg norm.
+Lemma lcorr_wf n : wf_mat n n (msub (identity n) (mconst n n (1 / qnat n))).
+Proof. apply msub_wf; [apply identity_wf | apply mconst_wf]. Qed.
+Lemma lreg_wf n reg LA : wf_mat n n LA -> wf_mat n n (lreg n reg LA).
+Proof. intros W. apply madd_wf; [exact W | apply mscale_wf, lcorr_wf]. Qed.
+Lemma lfull_wf n reg norm s LA : wf_mat n n LA -> length s = n -> wf_mat n n (lfull n reg norm s LA).
 Proof.
-  intros Hsq HS. apply transpose_symmetric; [apply laplacian_dense_wf; exact Hsq | apply laplacian_symmetric; assumption].
+  intros W Hs. unfold lfull. destruct norm; [|apply lreg_wf; exact W].
+  apply row_scale_wf; [exact Hs|]. apply col_scale_wf; [exact Hs | apply lreg_wf; exact W].
+Qed.
+Lemma mget_lreg n reg LA i j : wf_mat n n LA -> (i < n)%nat -> (j < n)%nat ->
+  mget (lreg n reg LA) i j == mget LA i j + reg * ((if Nat.eqb i j then 1 else 0) - 1 / qnat n).
+Proof.
+  intros W Hi Hj. unfold lreg. rewrite (mget_madd n n) by (auto using mscale_wf, lcorr_wf).
+  rewrite (mget_mscale n n) by (auto using lcorr_wf). rewrite (mget_msub n n) by (auto using identity_wf, mconst_wf).
+  rewrite mget_identity, mget_mconst by assumption. reflexivity.
+Qed.
+Lemma mget_lfull n reg norm s LA i j : wf_mat n n LA -> length s = n -> (i < n)%nat -> (j < n)%nat ->
+  mget (lfull n reg norm s LA) i j ==
+  if norm then nthq s i * (mget (lreg n reg LA) i j * nthq s j) else mget (lreg n reg LA) i j.
+Proof.
+  intros W Hs Hi Hj. unfold lfull. destruct norm; [|reflexivity].
+  rewrite (mget_row_scale n n) by (auto using col_scale_wf, lreg_wf).
+  rewrite (mget_col_scale n n) by (auto using lreg_wf). reflexivity.
+Qed.
+Lemma lfull_transpose n reg norm s LA : wf_mat n n LA -> length s = n ->
+  transpose_n n (lfull n reg norm s LA) =m lfull n reg norm s (transpose_n n LA).
+Proof.
+  intros W Hs. pose proof (transpose_n_wf n n LA (wf_mat_length _ _ _ W)) as Wt.
+  pose proof (lfull_wf n reg norm s LA W Hs) as WF.
+  apply (meq_mget n n); [apply transpose_n_wf, (wf_mat_length _ _ _ WF) | apply lfull_wf; assumption|].
+  intros j i Hj Hi. rewrite mget_transpose_n by (rewrite ?(wf_mat_length _ _ _ WF); assumption).
+  rewrite !mget_lfull by assumption. destruct norm; rewrite !mget_lreg by assumption;
+    rewrite mget_transpose_n by (rewrite ?(wf_mat_length _ _ _ W); assumption);
+    rewrite (Nat.eqb_sym j i); ring.
 Qed.
 
-(** Laplacian._transpose returns self: wrong for a directed graph *)
-Theorem laplacian_transpose_refuted :
+(** a Laplacian object: size, flags, sparse part denoting LA, normalising weights s' *)
+Definition lp_is (v : laplacian) (n : nat) (reg : Q) (norm : bool) (s' : vec) (LA : mat) : Prop :=
+  lp_n v = n /\ lp_reg v = reg /\ lp_norm v = norm /\ swf (lp_lap v) /\ s_nrow (lp_lap v) = n /\ s_ncol (lp_lap v) = n /\
+  dense (lp_lap v) =m LA /\ (norm = true -> lp_diag v = sdiag_pinv s') /\ length s' = n.
+
+Lemma lp_core_gen lap reg x : swf lap -> s_nrow lap = s_ncol lap -> (0 < s_nrow lap)%nat -> 0 <= reg -> length x = s_nrow lap ->
+  (if Qlt_b 0 reg then vadd (smv lap x) (vscale reg (map (fun q => q - vmean x) x)) else smv lap x)
+  =v mat_vec (lreg (s_nrow lap) reg (dense lap)) x.
+Proof.
+  intros W Hsq Hn Hreg Hx. set (n := s_nrow lap) in *.
+  assert (WA : wf_mat n n (dense lap)) by (pose proof (dense_wf lap) as H; rewrite <- Hsq in H; exact H).
+  assert (ER : mat_vec (lreg n reg (dense lap)) x
+               =v vadd (mat_vec (dense lap) x) (vscale reg (vsub x (vconst n (1 / qnat n * sumq x))))).
+  { unfold lreg. rewrite (mat_vec_madd n n) by (auto using mscale_wf, lcorr_wf). rewrite mat_vec_mscale.
+    rewrite (mat_vec_msub n n) by (auto using identity_wf, mconst_wf).
+    rewrite mat_vec_identity, mat_vec_mconst by exact Hx. reflexivity. }
+  rewrite ER. assert (ES : smv lap x =v mat_vec (dense lap) x) by (apply smv_dense; [exact W | lia]).
+  assert (HS : length (smv lap x) = n) by apply smv_length.
+  assert (HM : length (mat_vec (dense lap) x) = n) by (rewrite mat_vec_length; apply dense_length).
+  apply veq_nth.
+  - destruct (Qlt_b 0 reg); rewrite ?vadd_length, ?vscale_length, ?map_length, ?vsub_length, ?vconst_length, ?HS, ?HM; lia.
+  - intros i Hi. assert (Hi' : (i < n)%nat).
+    { destruct (Qlt_b 0 reg); rewrite ?vadd_length, ?vscale_length, ?map_length, ?HS in Hi; lia. }
+    clear Hi. rewrite nthq_vadd by (rewrite ?HM, ?vscale_length, ?vsub_length, ?vconst_length; lia).
+    rewrite nthq_vscale by (rewrite vsub_length, vconst_length; lia).
+    rewrite nthq_vsub by (rewrite ?vconst_length; lia). rewrite nthq_vconst by exact Hi'.
+    destruct (Qlt_b 0 reg) eqn:Er.
+    + rewrite nthq_vadd by (rewrite ?HS, ?vscale_length, ?map_length; lia).
+      rewrite nthq_vscale by (rewrite map_length; lia). rewrite nthq_map by lia.
+      rewrite (veq_nthq _ _ i ES), (vmean_def x n Hx). field. apply qnat_nonzero; exact Hn.
+    + apply Qlt_b_false in Er. pose proof (Qle_antisym_0 reg Hreg Er) as E0. rewrite (veq_nthq _ _ i ES), E0. field.
+      apply qnat_nonzero; exact Hn.
+Qed.
+
+Theorem lp_matvec_is v n reg norm s' LA x : lp_is v n reg norm s' LA -> (0 < n)%nat -> 0 <= reg -> length x = n ->
+  lp_matvec v x =v mat_vec (lfull n reg norm (map pinv s') LA) x.
+Proof.
+  intros (En & Er & Eno & W & Hr & Hc & ED & Edg & Hs) Hn Hreg Hx. unfold lp_matvec, lfull. rewrite Er, Eno.
+  assert (Hsq : s_nrow (lp_lap v) = s_ncol (lp_lap v)) by lia.
+  destruct norm.
+  - rewrite (Edg eq_refl). set (x1 := smv (sdiag_pinv s') x).
+    assert (Ex1 : x1 =v vmul (map pinv s') x) by (unfold x1; apply smv_sdiag_pinv; lia).
+    assert (Hx1 : length x1 = s_nrow (lp_lap v)) by (unfold x1; rewrite smv_length, sdiag_pinv_nrow; lia).
+    pose proof (lp_core_gen (lp_lap v) reg x1 W Hsq ltac:(lia) Hreg Hx1) as HC.
+    set (core := if Qlt_b 0 reg then _ else _) in *.
+    assert (Hcore : length core = n).
+    { rewrite (veq_length _ _ HC), mat_vec_length. rewrite Hr.
+      apply (wf_mat_length _ _ _ (lreg_wf n reg _ ltac:(rewrite <- Hr at 1; rewrite <- Hc; apply dense_wf))). }
+    rewrite smv_sdiag_pinv by lia. rewrite mat_vec_row_scale, mat_vec_col_scale.
+    rewrite HC, Hr, ED, Ex1. reflexivity.
+  - rewrite (lp_core_gen (lp_lap v) reg x W Hsq ltac:(lia) Hreg ltac:(lia)). rewrite Hr, ED. reflexivity.
+Qed.
+
+Lemma lp_core_mat_gen k lap reg X : swf lap -> s_nrow lap = s_ncol lap -> (0 < s_nrow lap)%nat -> 0 <= reg ->
+  wf_mat (s_nrow lap) k X ->
+  (if Qlt_b 0 reg then madd (smm k lap X) (mscale reg (msub X (outer (vones (s_nrow lap)) (col_means k X)))) else smm k lap X)
+  =m mat_mul k (lreg (s_nrow lap) reg (dense lap)) X.
+Proof.
+  intros W Hsq Hn Hreg WX. set (n := s_nrow lap) in *.
+  assert (WA : wf_mat n n (dense lap)) by (pose proof (dense_wf lap) as H; rewrite <- Hsq in H; exact H).
+  assert (WX' : wf_mat (s_ncol lap) k X) by (rewrite <- Hsq; exact WX).
+  assert (WAX : wf_mat n k (mat_mul k (dense lap) X)) by (eapply mat_mul_wf; eauto).
+  assert (WO : wf_mat n k (outer (vones n) (vscale (1 / qnat n) (col_sums k X)))) by (apply outer_wf'; vlen).
+  assert (WOm : wf_mat n k (outer (vones n) (col_means k X))) by (apply outer_wf'; vlen).
+  assert (ER : mat_mul k (lreg n reg (dense lap)) X
+               =m madd (mat_mul k (dense lap) X) (mscale reg (msub X (outer (vones n) (vscale (1 / qnat n) (col_sums k X)))))).
+  { unfold lreg. rewrite (mat_mul_madd_l n n k) by (auto using mscale_wf, lcorr_wf).
+    rewrite mat_mul_mscale_l by apply (wf_mat_rows _ _ _ WX).
+    rewrite (mat_mul_msub_l n n k) by (auto using identity_wf, mconst_wf).
+    rewrite (mat_mul_identity_l n k) by exact WX. rewrite mat_mul_mconst_l by exact WX. reflexivity. }
+  rewrite ER. assert (ES : smm k lap X =m mat_mul k (dense lap) X) by (apply smm_dense; assumption).
+  assert (WS : wf_mat n k (smm k lap X)) by (apply smm_wf; assumption).
+  apply (meq_mget n k).
+  - destruct (Qlt_b 0 reg); [|exact WS]. apply madd_wf; [exact WS|]. apply mscale_wf, msub_wf; assumption.
+  - apply madd_wf; [exact WAX|]. apply mscale_wf, msub_wf; assumption.
+  - intros i j Hi Hj. rewrite (mget_madd n k) by (auto using mscale_wf, msub_wf).
+    rewrite (mget_mscale n k) by (auto using msub_wf). rewrite (mget_msub n k) by assumption.
+    rewrite mget_outer by vlen. rewrite nthq_vones by exact Hi. rewrite nthq_vscale by vlen.
+    unfold col_sums. rewrite nthq_seq_map by exact Hj.
+    assert (EA : mget (smm k lap X) i j == mget (mat_mul k (dense lap) X) i j) by (rewrite ES; reflexivity).
+    destruct (Qlt_b 0 reg) eqn:Er.
+    + rewrite (mget_madd n k) by (auto using mscale_wf, msub_wf). rewrite (mget_mscale n k) by (auto using msub_wf).
+      rewrite (mget_msub n k) by assumption. rewrite mget_outer by vlen. rewrite nthq_vones by exact Hi.
+      unfold col_means. rewrite nthq_seq_map by exact Hj.
+      rewrite (vmean_def (col j X) n) by (rewrite col_length; apply (wf_mat_length _ _ _ WX)).
+      rewrite EA. field. apply qnat_nonzero; exact Hn.
+    + apply Qlt_b_false in Er. pose proof (Qle_antisym_0 reg Hreg Er) as E0. rewrite EA, E0. field. apply qnat_nonzero; exact Hn.
+Qed.
+
+Theorem lp_matmat_is k v n reg norm s' LA X : lp_is v n reg norm s' LA -> (0 < n)%nat -> 0 <= reg -> wf_mat n k X ->
+  lp_matmat k v X =m mat_mul k (lfull n reg norm (map pinv s') LA) X.
+Proof.
+  intros (En & Er & Eno & W & Hr & Hc & ED & Edg & Hs) Hn Hreg WX. unfold lp_matmat, lfull. rewrite Er, Eno, En.
+  assert (Hsq : s_nrow (lp_lap v) = s_ncol (lp_lap v)) by lia.
+  assert (WA : wf_mat n n (dense (lp_lap v))) by (rewrite <- Hr at 1; rewrite <- Hc; apply dense_wf).
+  assert (WLA : wf_mat n n LA) by (eapply wf_mat_meq; [exact ED | exact WA]).
+  destruct norm.
+  - rewrite (Edg eq_refl). set (X1 := smm k (sdiag_pinv s') X).
+    assert (Ex1 : X1 =m row_scale (map pinv s') X) by (unfold X1; apply smm_sdiag_pinv; rewrite Hs; exact WX).
+    assert (Hps : length (map pinv s') = n) by (rewrite map_length; exact Hs).
+    assert (WX1 : wf_mat (s_nrow (lp_lap v)) k X1).
+    { rewrite Hr. eapply wf_mat_meq; [symmetry; exact Ex1 | apply row_scale_wf; assumption]. }
+    pose proof (lp_core_mat_gen k (lp_lap v) reg X1 W Hsq ltac:(lia) Hreg WX1) as HC. rewrite Hr in HC.
+    set (core := if Qlt_b 0 reg then _ else _) in *.
+    assert (Wcore : wf_mat n k core).
+    { eapply wf_mat_meq; [symmetry; exact HC|]. eapply mat_mul_wf; [apply lreg_wf; exact WA | rewrite <- Hr; exact WX1]. }
+    rewrite smm_sdiag_pinv by (rewrite Hs; exact Wcore).
+    rewrite mat_mul_row_scale_l by apply (wf_mat_rows _ _ _ WX).
+    rewrite (mat_mul_col_scale n n k) by (auto using lreg_wf).
+    rewrite HC, ED, Ex1. reflexivity.
+  - pose proof (lp_core_mat_gen k (lp_lap v) reg X W Hsq ltac:(lia) Hreg ltac:(rewrite Hr; exact WX)) as HC.
+    rewrite Hr in HC. rewrite HC, ED. reflexivity.
+Qed.
+
+Theorem lp_transpose_is v n reg norm s' LA : lp_is v n reg norm s' LA -> lp_is (lp_transpose v) n reg norm s' (transpose_n n LA).
+Proof.
+  intros (En & Er & Eno & W & Hr & Hc & ED & Edg & Hs). unfold lp_is, lp_transpose; simpl.
+  repeat split; auto using swf_stranspose.
+  - rewrite stranspose_nrow. exact Hc.
+  - rewrite dense_stranspose, Hc, ED. reflexivity.
+Qed.
+Theorem mk_laplacian_is sqrtf a reg norm : swf a -> s_nrow a = s_ncol a ->
+  lp_is (mk_laplacian sqrtf a reg norm) (s_nrow a) reg norm (map (fun d => sqrtf (d + reg)) (smv a (vones (s_nrow a))))
+        (msub (diag (row_sums (dense a))) (dense a)).
+Proof.
+  intros W Hsq. destruct (laplacian_sparse_wf a W Hsq) as (WL & HLr & HLc & EL).
+  unfold lp_is, mk_laplacian; simpl. repeat split; auto.
+  - intros ->. reflexivity.
+  - vlen.
+Qed.
+(** on the base operator this is the textbook matrix *)
+Lemma lfull_base sqrtf a reg norm : Proper (Qeq ==> Qeq) sqrtf -> swf a -> s_nrow a = s_ncol a -> (0 < s_nrow a)%nat ->
+  lfull (s_nrow a) reg norm (map pinv (map (fun d => sqrtf (d + reg)) (smv a (vones (s_nrow a)))))
+        (msub (diag (row_sums (dense a))) (dense a))
+  =m laplacian_dense sqrtf a reg norm.
+Proof.
+  intros Hs W Hsq Hn. rewrite (lp_norm_weights sqrtf a reg Hs W Hsq Hn).
+  pose proof (regularized_wf a reg) as WR. rewrite <- Hsq in WR.
+  pose proof (laplacian_L_wf a reg Hsq) as WL. set (n := s_nrow a) in *.
+  set (R := regularized_dense a reg) in *. set (rs := row_sums R) in *.
+  assert (Hrs : length rs = n) by (unfold rs; rewrite row_sums_length; apply (wf_mat_length _ _ _ WR)).
+  assert (WA : wf_mat n n (dense a)) by (pose proof (dense_wf a) as H; rewrite <- Hsq in H; exact H).
+  assert (HrsA : length (row_sums (dense a)) = n) by (rewrite row_sums_length; apply dense_length).
+  assert (WDa : wf_mat n n (diag (row_sums (dense a)))) by (rewrite <- HrsA at 1 2; apply diag_wf).
+  assert (WDg : wf_mat n n (diag rs)) by (rewrite <- Hrs at 1 2; apply diag_wf).
+  assert (WLA : wf_mat n n (msub (diag (row_sums (dense a))) (dense a))) by (apply msub_wf; assumption).
+  assert (HW : rs =v map (fun d => d + reg) (row_sums (dense a))) by (apply row_sums_regularized; lia).
+  assert (EL : lreg n reg (msub (diag (row_sums (dense a))) (dense a)) =m msub (diag rs) R).
+  { apply (meq_mget n n); [apply lreg_wf; exact WLA | exact WL|].
+    intros i j Hi Hj. rewrite mget_lreg by assumption. rewrite !(mget_msub n n) by assumption.
+    rewrite !mget_diag by lia. unfold R. rewrite mget_regularized by (fold n; lia).
+    rewrite <- Hsq. fold n. pose proof (veq_nthq _ _ i HW) as Ei. rewrite nthq_map in Ei by lia.
+    destruct (Nat.eqb i j); [rewrite Ei|]; field; apply qnat_nonzero; exact Hn. }
+  unfold lfull, laplacian_dense. fold R. fold rs. destruct norm; rewrite EL; reflexivity.
+Qed.
+
+(** expressions *)
+Fixpoint le_base (e : lp_expr) : smat * Q * bool :=
+  match e with LBase a reg norm => (a, reg, norm) | LT e | LAstype e => le_base e end.
+Fixpoint le_LA (e : lp_expr) : mat :=
+  match e with
+  | LBase a _ _ => msub (diag (row_sums (dense a))) (dense a)
+  | LT e => transpose_n (le_n e) (le_LA e)
+  | LAstype e => le_LA e
+  end.
+Lemma le_n_base e : le_n e = s_nrow (fst (fst (le_base e))).
+Proof. induction e; simpl; auto. Qed.
+Lemma le_wf_base e : le_wf e ->
+  let a := fst (fst (le_base e)) in swf a /\ s_nrow a = s_ncol a /\ (0 < s_nrow a)%nat /\ 0 <= snd (fst (le_base e)).
+Proof. induction e; simpl; auto. Qed.
+Lemma le_LA_wf e : le_wf e -> wf_mat (le_n e) (le_n e) (le_LA e).
+Proof.
+  induction e as [a reg norm | e IH | e IH]; simpl; intros H; auto.
+  - destruct H as (W & Hsq & _). apply msub_wf.
+    + pose proof (diag_wf (row_sums (dense a))) as WD. rewrite row_sums_length, dense_length in WD. exact WD.
+    + pose proof (dense_wf a) as WA. rewrite <- Hsq in WA. exact WA.
+  - apply transpose_n_wf. apply (wf_mat_length _ _ _ (IH H)).
+Qed.
+Definition le_s (sqrtf : Q -> Q) (e : lp_expr) : vec :=
+  let a := fst (fst (le_base e)) in map (fun d => sqrtf (d + snd (fst (le_base e)))) (smv a (vones (s_nrow a))).
+Lemma le_s_length sqrtf e : length (le_s sqrtf e) = le_n e.
+Proof. unfold le_s. rewrite le_n_base. vlen. Qed.
+Theorem le_denotes sqrtf e : Proper (Qeq ==> Qeq) sqrtf -> le_wf e ->
+  lp_is (lp_eval sqrtf e) (le_n e) (snd (fst (le_base e))) (snd (le_base e)) (le_s sqrtf e) (le_LA e) /\
+  le_dense sqrtf e =m lfull (le_n e) (snd (fst (le_base e))) (snd (le_base e)) (map pinv (le_s sqrtf e)) (le_LA e).
+Proof.
+  intros Hs. induction e as [a reg norm | e IH | e IH]; simpl; intros H.
+  - destruct H as (W & Hsq & Hn & Hreg). split; [apply mk_laplacian_is; assumption|].
+    symmetry. apply lfull_base; assumption.
+  - change (le_s sqrtf (LT e)) with (le_s sqrtf e).
+    destruct (IH H) as (I1 & I2). split; [apply lp_transpose_is; exact I1|].
+    rewrite I2. apply lfull_transpose; [apply le_LA_wf; exact H | rewrite map_length; apply le_s_length].
+  - change (le_s sqrtf (LAstype e)) with (le_s sqrtf e). apply IH; exact H.
+Qed.
+
+Theorem laplacian_dot_denotes sqrtf e x : Proper (Qeq ==> Qeq) sqrtf -> le_wf e -> length x = le_n e ->
+  exists y, lo_dot (lp_n (lp_eval sqrtf e), lp_n (lp_eval sqrtf e)) (lp_matvec (lp_eval sqrtf e)) x = Ok y /\
+            y =v mat_vec (le_dense sqrtf e) x.
+Proof.
+  intros Hs HW Hx. destruct (le_denotes sqrtf e Hs HW) as (I1 & I2).
+  destruct (le_wf_base e HW) as (W & Hsq & Hn & Hreg). rewrite <- le_n_base in Hn.
+  pose proof (lp_matvec_is _ _ _ _ _ _ x I1 Hn Hreg Hx) as E.
+  exists (lp_matvec (lp_eval sqrtf e) x). split.
+  - destruct I1 as (En & _). rewrite En. apply lo_dot_ok; simpl; [exact Hx|].
+    rewrite (veq_length _ _ E), mat_vec_length.
+    apply (wf_mat_length _ _ _ (lfull_wf _ _ _ _ _ (le_LA_wf e HW) ltac:(rewrite map_length; apply le_s_length))).
+  - rewrite E, I2. reflexivity.
+Qed.
+Theorem laplacian_expr_matmat_denotes sqrtf k e X : Proper (Qeq ==> Qeq) sqrtf -> le_wf e -> wf_mat (le_n e) k X ->
+  lp_matmat k (lp_eval sqrtf e) X =m mat_mul k (le_dense sqrtf e) X.
+Proof.
+  intros Hs HW WX. destruct (le_denotes sqrtf e Hs HW) as (I1 & I2).
+  destruct (le_wf_base e HW) as (W & Hsq & Hn & Hreg). rewrite <- le_n_base in Hn.
+  rewrite (lp_matmat_is k _ _ _ _ _ _ X I1 Hn Hreg WX). rewrite I2. reflexivity.
+Qed.
+(** base operator, stated directly *)
+Theorem laplacian_matvec_denotes sqrtf a reg norm x :
+  Proper (Qeq ==> Qeq) sqrtf -> swf a -> s_nrow a = s_ncol a -> (0 < s_nrow a)%nat -> 0 <= reg -> length x = s_nrow a ->
+  lp_matvec (mk_laplacian sqrtf a reg norm) x =v mat_vec (laplacian_dense sqrtf a reg norm) x.
+Proof.
+  intros Hs W Hsq Hn Hreg Hx.
+  rewrite (lp_matvec_is _ _ _ _ _ _ x (mk_laplacian_is sqrtf a reg norm W Hsq) Hn Hreg Hx).
+  rewrite lfull_base by assumption. reflexivity.
+Qed.
+Theorem laplacian_matmat_denotes sqrtf k a reg norm X :
+  Proper (Qeq ==> Qeq) sqrtf -> swf a -> s_nrow a = s_ncol a -> (0 < s_nrow a)%nat -> 0 <= reg -> wf_mat (s_nrow a) k X ->
+  lp_matmat k (mk_laplacian sqrtf a reg norm) X =m mat_mul k (laplacian_dense sqrtf a reg norm) X.
+Proof.
+  intros Hs W Hsq Hn Hreg WX.
+  rewrite (lp_matmat_is k _ _ _ _ _ _ X (mk_laplacian_is sqrtf a reg norm W Hsq) Hn Hreg WX).
+  rewrite lfull_base by assumption. reflexivity.
+Qed.
+(** _transpose: the transposed dense matrix, for directed graphs too *)
+Theorem laplacian_transpose_matvec_denotes sqrtf a reg norm x :
+  Proper (Qeq ==> Qeq) sqrtf -> swf a -> s_nrow a = s_ncol a -> (0 < s_nrow a)%nat -> 0 <= reg -> length x = s_nrow a ->
+  lp_matvec (lp_transpose (mk_laplacian sqrtf a reg norm)) x
+  =v mat_vec (transpose_n (s_nrow a) (laplacian_dense sqrtf a reg norm)) x.
+Proof.
+  intros Hs W Hsq Hn Hreg Hx.
+  destruct (laplacian_dot_denotes sqrtf (LT (LBase a reg norm)) x Hs) as (y & E1 & E2); simpl; auto.
+  unfold lo_dot in E1. simpl in E1.
+  destruct (negb (Nat.eqb (length x) (s_nrow a))); [discriminate|].
+  destruct (Nat.eqb _ _) in E1; [|discriminate]. injection E1 as <-. exact E2.
+Qed.
+
+(** legacy (before ca03879a): Laplacian._transpose returned self *)
+Theorem legacy_laplacian_transpose_refuted :
   exists a x, swf a /\ s_nrow a = s_ncol a /\ length x = s_nrow a /\
-    ~ (lp_matvec (lp_transpose (mk_laplacian (fun q => q) a 0 false)) x
+    ~ (lp_matvec (legacy_lp_transpose (mk_laplacian (fun q => q) a 0 false)) x
        =v mat_vec (transpose_n (s_nrow a) (laplacian_dense (fun q => q) a 0 false)) x).
 Proof.
   exists {| s_ncol := 3; s_rows := [[(1%nat, 1)]; [(2%nat, 1)]; []] |}, [1; 2; 3].
@@ -1173,60 +1458,8 @@ Proof.
   - reflexivity.
   - intros H. apply (veq_nthq _ _ 0) in H. vm_compute in H. discriminate.
 Qed.
-
-(** expressions *)
-Fixpoint le_base (e : lp_expr) : smat * Q * bool :=
-  match e with LBase a reg norm => (a, reg, norm) | LT e | LAstype e => le_base e end.
-Lemma lp_eval_base sqrtf e : lp_eval sqrtf e = mk_laplacian sqrtf (fst (fst (le_base e))) (snd (fst (le_base e))) (snd (le_base e)).
-Proof. induction e; simpl; auto. Qed.
-Lemma le_n_base e : le_n e = s_nrow (fst (fst (le_base e))).
-Proof. induction e; simpl; auto. Qed.
-Lemma le_wf_base e : le_wf e ->
-  let a := fst (fst (le_base e)) in swf a /\ s_nrow a = s_ncol a /\ (0 < s_nrow a)%nat /\ 0 <= snd (fst (le_base e)).
-Proof. induction e; simpl; auto. Qed.
-Lemma le_base_sym_spec e : le_base_sym e <-> msymmetric (s_nrow (fst (fst (le_base e)))) (dense (fst (fst (le_base e)))).
-Proof. induction e; simpl; tauto. Qed.
-Lemma le_base_sym_implies e : le_base_sym e -> le_sym_or_untransposed e.
-Proof. induction e; simpl; auto. Qed.
-Lemma le_dense_base sqrtf e : le_wf e -> le_sym_or_untransposed e ->
-  le_dense sqrtf e =m laplacian_dense sqrtf (fst (fst (le_base e))) (snd (fst (le_base e))) (snd (le_base e)).
-Proof.
-  induction e as [a reg norm | e IH | e IH]; simpl; intros HW HS.
-  - reflexivity.
-  - rewrite IH by (auto using le_base_sym_implies). rewrite le_n_base.
-    destruct (le_wf_base e HW) as (_ & Hsq & _). apply laplacian_transpose_symmetric; [exact Hsq|].
-    apply le_base_sym_spec; exact HS.
-  - apply IH; assumption.
-Qed.
-
-Theorem laplacian_dot_denotes sqrtf e x : Proper (Qeq ==> Qeq) sqrtf -> le_wf e -> le_sym_or_untransposed e -> length x = le_n e ->
-  exists y, lo_dot (lp_n (lp_eval sqrtf e), lp_n (lp_eval sqrtf e)) (lp_matvec (lp_eval sqrtf e)) x = Ok y /\
-            y =v mat_vec (le_dense sqrtf e) x.
-Proof.
-  intros Hs HW HS Hx. rewrite lp_eval_base. destruct (le_wf_base e HW) as (W & Hsq & Hn & Hreg).
-  rewrite le_n_base in Hx. set (a := fst (fst (le_base e))) in *. set (reg := snd (fst (le_base e))) in *. set (norm := snd (le_base e)).
-  pose proof (laplacian_matvec_denotes sqrtf a reg norm x Hs W Hsq Hn Hreg Hx) as E.
-  exists (lp_matvec (mk_laplacian sqrtf a reg norm) x). split.
-  - apply lo_dot_ok; simpl; [exact Hx|]. rewrite (veq_length _ _ E), mat_vec_length.
-    apply (wf_mat_length _ _ _ (laplacian_dense_wf sqrtf a reg norm Hsq)).
-  - rewrite E. rewrite (le_dense_base sqrtf e HW HS). reflexivity.
-Qed.
-Theorem laplacian_expr_matmat_denotes sqrtf k e X : Proper (Qeq ==> Qeq) sqrtf -> le_wf e -> le_sym_or_untransposed e ->
-  wf_mat (le_n e) k X -> lp_matmat k (lp_eval sqrtf e) X =m mat_mul k (le_dense sqrtf e) X.
-Proof.
-  intros Hs HW HS WX. rewrite lp_eval_base. destruct (le_wf_base e HW) as (W & Hsq & Hn & Hreg). rewrite le_n_base in WX.
-  rewrite laplacian_matmat_denotes by assumption. rewrite (le_dense_base sqrtf e HW HS). reflexivity.
-Qed.
 (* ------------------------------------------------------------------------------------------- *)
 (** * CoNeighbor *)
-Global Instance map_pinv_instance : Proper (veq ==> veq) (map pinv).
-Proof. intros u v H. apply map_pinv_proper; exact H. Qed.
-Lemma sneg_nrow s : s_nrow (sneg s) = s_nrow s. Proof. apply smap_nrow. Qed.
-Lemma sscale_nrow c s : s_nrow (sscale c s) = s_nrow s. Proof. apply smap_nrow. Qed.
-Lemma sneg_ncol s : s_ncol (sneg s) = s_ncol s. Proof. reflexivity. Qed.
-Lemma sscale_ncol c s : s_ncol (sscale c s) = s_ncol s. Proof. reflexivity. Qed.
-Global Hint Rewrite smap_nrow smap_ncol sneg_nrow sneg_ncol sscale_nrow sscale_ncol stranspose_nrow stranspose_ncol
-  smul_nrow smul_ncol sdiag_nrow sdiag_ncol sdiag_pinv_nrow sdiag_pinv_ncol sadd_ncol : vlen.
 Definition cn_wfv (v : coneighbor) : Prop := swf (cn_back v) /\ swf (cn_fwd v) /\ s_ncol (cn_back v) = s_nrow (cn_fwd v).
 Definition cn_is (v : coneighbor) (r c : nat) (D : mat) : Prop :=
   cn_wfv v /\ s_nrow (cn_back v) = r /\ s_ncol (cn_fwd v) = c /\ cn_dense v =m D.
@@ -1306,16 +1539,16 @@ Proof.
 Qed.
 
 (** the algebraic operations (each mutates the object; the value it then has is modelled here) *)
-Theorem cn_mul_is q v r c D : cn_shared v = false -> cn_is v r c D -> cn_is (cn_mul q v) r c (mscale q D).
+Theorem cn_mul_is q v r c D : cn_is v r c D -> cn_is (cn_mul q v) r c (mscale q D).
 Proof.
-  intros Hsh ((Wb & Wf & E) & Hr & Hc & ED). unfold cn_is, cn_wfv, cn_dense, cn_ncol, cn_mul in *; simpl. rewrite Hsh.
+  intros ((Wb & Wf & E) & Hr & Hc & ED). unfold cn_is, cn_wfv, cn_dense, cn_ncol, cn_mul in *; simpl.
   repeat split; auto.
   - apply swf_smap; exact Wb.
   - unfold sscale. rewrite smap_nrow. exact Hr.
   - rewrite dense_sscale. rewrite mat_mul_mscale_l by apply (wf_mat_rows _ _ _ (dense_wf (cn_fwd v))). rewrite ED. reflexivity.
 Qed.
-Theorem cn_neg_is v r c D : cn_shared v = false -> cn_is v r c D -> cn_is (cn_neg v) r c (mneg D).
-Proof. intros Hsh H. eapply cn_is_meq; [symmetry; apply mneg_mscale|]. exact (cn_mul_is (-(1)) v r c D Hsh H). Qed.
+Theorem cn_neg_is v r c D : cn_is v r c D -> cn_is (cn_neg v) r c (mneg D).
+Proof. intros H. eapply cn_is_meq; [symmetry; apply mneg_mscale|]. exact (cn_mul_is (-(1)) v r c D H). Qed.
 Theorem cn_left_is M v r c D : cn_is v r c D -> swf M -> s_ncol M = r ->
   cn_is (cn_left M v) (s_nrow M) c (mat_mul c (dense M) D).
 Proof.
@@ -1351,79 +1584,65 @@ Proof.
   rewrite E. reflexivity.
 Qed.
 
-Lemma cn_eval_shared e : cn_shared (cn_eval e) = ce_shared e.
-Proof. induction e; simpl; auto. Qed.
-
-Theorem ce_denotes e : ce_wf e -> ce_unshared_scaling e ->
-  cn_is (cn_eval e) (fst (ce_shape e)) (snd (ce_shape e)) (ce_dense e).
+Theorem ce_denotes e : ce_wf e -> cn_is (cn_eval e) (fst (ce_shape e)) (snd (ce_shape e)) (ce_dense e).
 Proof.
-  induction e as [a nrm | e IH | q e IH | M e IH | e IH M | e IH | e IH]; simpl; intros H HU.
+  induction e as [a nrm | e IH | q e IH | M e IH | e IH M | e IH | e IH]; simpl; intros H.
   - destruct H as [W HN]. apply coneighbor_base_is; assumption.
-  - destruct HU as [Hsh HU]. apply cn_neg_is; [rewrite cn_eval_shared; exact Hsh | auto].
-  - destruct HU as [Hsh HU]. apply cn_mul_is; [rewrite cn_eval_shared; exact Hsh | auto].
+  - apply cn_neg_is; auto.
+  - apply cn_mul_is; auto.
   - destruct H as (H1 & W & E). apply (cn_left_is M _ (fst (ce_shape e))); auto.
   - destruct H as (H1 & W & E). apply (cn_right_is _ M (fst (ce_shape e)) (snd (ce_shape e))); auto.
   - apply cn_transpose_is; auto.
-  - apply IH; assumption.
+  - apply IH; exact H.
 Qed.
 
-(** with square factors only, the recorded shape stays right *)
-Lemma ce_square_shape e : ce_wf e -> ce_unshared_scaling e -> ce_square_factors e ->
-  exists n, ce_shape e = (n, n) /\ cn_shape (cn_eval e) = (n, n).
+(** the recorded LinearOperator shape follows the two factors through every operation (commit 2a194d08) *)
+Lemma cn_eval_shape e : cn_shape (cn_eval e) = (s_nrow (cn_back (cn_eval e)), s_ncol (cn_fwd (cn_eval e))).
 Proof.
-  induction e as [a nrm | e IH | q e IH | M e IH | e IH M | e IH | e IH]; simpl; intros H HU HS.
-  - exists (s_nrow a). split; reflexivity.
-  - destruct HU as [_ HU]. apply IH; assumption.
-  - destruct HU as [_ HU]. apply IH; assumption.
-  - destruct H as (H1 & W & E). destruct HS as (HS & Hsq). destruct (IH H1 HU HS) as (n & E1 & E2).
-    exists n. rewrite E1 in *. simpl in *. split; [f_equal; lia | exact E2].
-  - destruct H as (H1 & W & E). destruct HS as (HS & Hsq). destruct (IH H1 HU HS) as (n & E1 & E2).
-    exists n. rewrite E1 in *. simpl in *. split; [f_equal; lia | exact E2].
-  - destruct (IH H HU HS) as (n & E1 & E2). exists n. rewrite E1. simpl. split; [reflexivity|].
-    destruct (ce_denotes e H HU) as (_ & Hr & _). rewrite E1 in Hr. simpl in Hr. rewrite Hr. reflexivity.
-  - apply IH; assumption.
+  induction e as [a nrm | e IH | q e IH | M e IH | e IH M | e IH | e IH]; simpl; auto.
+  - destruct nrm; reflexivity.
+  - rewrite IH, sscale_nrow. reflexivity.
+  - rewrite IH, sscale_nrow. reflexivity.
+  - rewrite IH. reflexivity.
+  - rewrite IH. reflexivity.
 Qed.
 
-Theorem coneighbor_dot_denotes e x : ce_wf e -> ce_square_factors e -> ce_unshared_scaling e -> length x = snd (ce_shape e) ->
+Theorem coneighbor_dot_denotes e x : ce_wf e -> length x = snd (ce_shape e) ->
   exists y, cn_dot (cn_eval e) x = Ok y /\ y =v mat_vec (ce_dense e) x.
 Proof.
-  intros H HS HU Hx. destruct (ce_denotes e H HU) as (Hv & Hr & Hc & ED). destruct (ce_square_shape e H HU HS) as (n & E1 & E2).
-  rewrite E1 in *. simpl in *. exists (cn_matvec (cn_eval e) x). split.
-  - unfold cn_dot. rewrite Hc, Hx, Nat.eqb_refl. apply lo_dot_ok; rewrite E2; simpl; [exact Hx|].
-    unfold cn_matvec. rewrite smv_length. exact Hr.
+  intros H Hx. destruct (ce_denotes e H) as (Hv & Hr & Hc & ED).
+  exists (cn_matvec (cn_eval e) x). split.
+  - unfold cn_dot. rewrite Hc, Hx, Nat.eqb_refl. apply lo_dot_ok; rewrite cn_eval_shape; simpl; [lia|].
+    unfold cn_matvec. rewrite smv_length. reflexivity.
   - rewrite coneighbor_matvec_denotes by (auto; unfold cn_ncol; lia). rewrite ED. reflexivity.
 Qed.
-Theorem coneighbor_expr_matmat_denotes k e X : ce_wf e -> ce_unshared_scaling e -> wf_mat (snd (ce_shape e)) k X ->
+Theorem coneighbor_expr_matmat_denotes k e X : ce_wf e -> wf_mat (snd (ce_shape e)) k X ->
   cn_matmat k (cn_eval e) X =m mat_mul k (ce_dense e) X.
 Proof.
-  intros H HU WX. destruct (ce_denotes e H HU) as (Hv & Hr & Hc & ED).
+  intros H WX. destruct (ce_denotes e H) as (Hv & Hr & Hc & ED).
   rewrite coneighbor_matmat_denotes by (auto; unfold cn_ncol; rewrite Hc; exact WX). rewrite ED. reflexivity.
 Qed.
 
-(** __neg__ / __mul__ on CoNeighbor(normalized=False): backward *= c also scales forward (same buffer), so -op = op *)
-Theorem coneighbor_shared_scaling_refuted :
+(** legacy (before 1496c670): with normalized=False forward was a view on backward's buffer, so -op = op *)
+Theorem legacy_coneighbor_shared_scaling_refuted :
   exists a x y, swf a /\ snonneg a /\ length x = s_nrow a /\
-    cn_dot (cn_eval (CNeg (CBase a false))) x = Ok y /\ ~ (y =v mat_vec (ce_dense (CNeg (CBase a false))) x).
+    legacy_cn_dot (legacy_cn_mul (-(1)) (legacy_mk_coneighbor a false)) x = Ok y /\
+    ~ (y =v mat_vec (ce_dense (CNeg (CBase a false))) x).
 Proof.
   exists {| s_ncol := 1; s_rows := [[(0%nat, 2)]] |}, [1], [4].
   split; [repeat constructor; unfold Qle; simpl; lia|]. split; [repeat constructor; unfold Qle; simpl; lia|].
   split; [reflexivity|]. split; [vm_compute; reflexivity|].
   intros H. apply (veq_nthq _ _ 0) in H. vm_compute in H. discriminate.
 Qed.
-
-(** D26: left_sparse_dot with a 2 x 3 factor keeps shape (3, 3): the next dot raises *)
-Theorem coneighbor_sparse_dot_shape_refuted :
-  exists e x, ce_wf e /\ length x = snd (ce_shape e) /\ cn_dot (cn_eval e) x = Err.
+(** legacy (before 2a194d08): left_sparse_dot with a 2 x 3 factor kept shape (3, 3) and the next dot raised *)
+Theorem legacy_coneighbor_sparse_dot_shape_refuted :
+  exists M a x, swf M /\ swf a /\ snonneg a /\ s_ncol M = s_nrow a /\ length x = s_nrow a /\
+    legacy_cn_dot (legacy_cn_left M (legacy_mk_coneighbor a true)) x = Err.
 Proof.
-  exists (CLeft {| s_ncol := 3; s_rows := [[(0%nat, 1)]; [(1%nat, 1); (2%nat, 1)]] |}
-                (CBase {| s_ncol := 3; s_rows := [[(0%nat, 1); (2%nat, 1)]; [(1%nat, 1)]; [(0%nat, 1); (1%nat, 1)]] |} true)),
-         [1; 1; 1].
-  split; [|split].
-  - simpl. repeat split; repeat constructor; unfold Qle; simpl; lia.
-  - reflexivity.
-  - vm_compute. reflexivity.
+  exists {| s_ncol := 3; s_rows := [[(0%nat, 1)]; [(1%nat, 1); (2%nat, 1)]] |},
+         {| s_ncol := 3; s_rows := [[(0%nat, 1); (2%nat, 1)]; [(1%nat, 1)]; [(0%nat, 1); (1%nat, 1)]] |}, [1; 1; 1].
+  repeat split; try (repeat constructor; unfold Qle; simpl; lia).
 Qed.
-(* ------------------------------------------------------------------------------------------- *)
 (** * Polynome *)
 Lemma horner_single f c x : horner f [c] x = vscale c x.
 Proof. reflexivity. Qed.
@@ -1690,25 +1909,24 @@ Qed.
 
 (* ------------------------------------------------------------------------------------------- *)
 (** * All operators *)
-Theorem operator_denotes sqrtf o x : Proper (Qeq ==> Qeq) sqrtf -> op_wf o -> op_sound_site o -> length x = snd (op_shape o) ->
+Theorem operator_denotes sqrtf o x : Proper (Qeq ==> Qeq) sqrtf -> op_wf o -> length x = snd (op_shape o) ->
   exists y, op_apply sqrtf o x = Ok y /\ y =v mat_vec (op_dense sqrtf o) x.
 Proof.
-  intros Hs. destruct o as [e | e | e | e | e]; simpl; intros HW HS Hx.
+  intros Hs. destruct o as [e | e | e | e | e]; simpl; intros HW Hx.
   - apply sparselr_dot_denotes; assumption.
   - apply normalizer_dot_denotes; assumption.
   - apply laplacian_dot_denotes; assumption.
-  - destruct HS as [HS1 HS2]. apply coneighbor_dot_denotes; assumption.
+  - apply coneighbor_dot_denotes; assumption.
   - apply polynome_dot_denotes; assumption.
 Qed.
-Theorem operator_matmat_denotes sqrtf k o X : Proper (Qeq ==> Qeq) sqrtf -> op_wf o -> op_sound_site o ->
+Theorem operator_matmat_denotes sqrtf k o X : Proper (Qeq ==> Qeq) sqrtf -> op_wf o ->
   wf_mat (snd (op_shape o)) k X -> op_apply_mat sqrtf k o X =m mat_mul k (op_dense sqrtf o) X.
 Proof.
-  intros Hs. destruct o as [e | e | e | e | e]; simpl; intros HW HS WX.
+  intros Hs. destruct o as [e | e | e | e | e]; simpl; intros HW WX.
   - apply sparselr_matmat_denotes; assumption.
-  - destruct e as [a reg | e]; simpl in *; [|discriminate]. destruct HW as (W & Hc & Hreg).
-    apply normalizer_matmat_denotes; assumption.
+  - apply normalizer_expr_matmat_denotes; assumption.
   - apply laplacian_expr_matmat_denotes; assumption.
-  - destruct HS as [HS1 HS2]. apply coneighbor_expr_matmat_denotes; assumption.
+  - apply coneighbor_expr_matmat_denotes; assumption.
   - apply polynome_expr_matmat_denotes; assumption.
 Qed.
 (* ------------------------------------------------------------------------------------------- *)
@@ -2136,7 +2354,11 @@ Theorem top_k_def (argsort : list Q -> list nat) (argpartition : list Q -> nat -
     unfold top_k. set (n := length scores). set (neg := map Qopp scores).
     assert (Hneg : length neg = n) by (unfold neg; apply map_length).
     destruct (Nat.leb n k) eqn:Ek.
-    - apply Nat.leb_le in Ek. destruct sort; [|discriminate]. intros H; injection H as <-.
+    - apply Nat.leb_le in Ek. destruct sort.
+      2:{ intros H; injection H as <-. split; [rewrite seq_length; lia|]. split; [apply seq_NoDup|].
+          split; [intros i Hi; apply in_seq in Hi; lia|]. split; [|discriminate].
+          intros i j _ Hj Hnj. exfalso. apply Hnj. apply in_seq. lia. }
+      intros H; injection H as <-.
       pose proof (argsort_perm neg) as P. rewrite Hneg in P.
       assert (HL : length (argsort neg) = n) by (rewrite (Permutation_length P); apply seq_length).
       split; [rewrite HL; lia|]. split; [apply (Permutation_NoDup (Permutation_sym P)), seq_NoDup|].
@@ -2205,16 +2427,11 @@ Theorem top_k_def (argsort : list Q -> list nat) (argpartition : list Q -> nat -
         split; [exact Hbest | discriminate].
   Qed.
 
-(** D11: sort=False with k >= len(scores) raises (np.arange(scores)) whatever the oracles answer *)
-Theorem top_k_unsorted_refuted :
-  exists scores k, (length scores <= k)%nat /\ forall argsort argpartition, top_k argsort argpartition scores k false = Err.
-Proof. exists [1; 3; 2], 3%nat. split; [simpl; lia | reflexivity]. Qed.
+(** it always returns (commit 5ac8181a) *)
+Theorem top_k_returns argsort argpartition scores k sort : exists idx, top_k argsort argpartition scores k sort = Ok idx.
+Proof. unfold top_k. destruct (Nat.leb (length scores) k), sort; eexists; reflexivity. Qed.
 
-Theorem top_k_returns argsort argpartition scores k sort :
-  sort = true \/ (k < length scores)%nat -> exists idx, top_k argsort argpartition scores k sort = Ok idx.
-Proof.
-  intros [->|H]; unfold top_k.
-  - destruct (Nat.leb (length scores) k); eexists; reflexivity.
-  - replace (Nat.leb (length scores) k) with false by (symmetry; apply Nat.leb_gt; exact H).
-    destruct sort; eexists; reflexivity.
-Qed.
+(** legacy (before 5ac8181a): sort=False with k >= len(scores) raised (np.arange(scores)) whatever the oracles answer *)
+Theorem legacy_top_k_unsorted_refuted :
+  exists scores k, (length scores <= k)%nat /\ forall argsort argpartition, legacy_top_k argsort argpartition scores k false = Err.
+Proof. exists [1; 3; 2], 3%nat. split; [simpl; lia | reflexivity]. Qed.
